@@ -16,12 +16,6 @@ structure WorkOK (sp : Spec) (ys : List Nat) : Prop where
   seen : ∀ y ∈ ys, y ∈ sp.seen
   rest : ∀ y ∈ ys, y ∉ (previous sp.st).snap → target sp y = none
 
-/-- the staged version holds no AI line beyond HEAD (its claims are about to be removed) -/
-structure IndexClean (sp : Spec) : Prop where
-  nodup : sp.st.index.Nodup
-  seen : ∀ y ∈ sp.st.index, y ∈ sp.seen
-  clean : ∀ y ∈ sp.st.index, target sp y = none
-
 structure ForceOK (root : List Nat) (sp : Spec) (otherLog : List (List Nat × List Nat)) (otherNotes : List Note)
     (otherHead : List Nat) : Prop where
   hist : HistOK sp.g root otherLog otherNotes
@@ -105,10 +99,10 @@ theorem Inv2.noClaims {sp : Spec} (hnd : sp.st.work.Nodup) (hws : ∀ y ∈ sp.s
   simp only [List.getLast?_nil]
   exact Or.inl ⟨hi, hclean⟩
 
-theorem RInv.discardFile {root sp} (h : RInv root sp) (hok : IndexClean sp) :
+/-- path checkout = the staged version lands in the working tree (`restoreFile`), then a human checkpoint -/
+theorem RInv.discardFile {root sp} (h : RInv root sp) (hok : WorkOK sp sp.st.index) :
     RInv root ⟨discardFile sp.st, sp.g, sp.seen⟩ :=
-  ⟨Inv2.noClaims hok.nodup hok.seen h.inv2.headSeen rfl rfl hok.clean, h.hist, h.head, h.rootHuman, h.rootSeen,
-    h.rootNodup, h.logSeen⟩
+  (h.restoreFile hok).checkpointed
 
 theorem RInv.resetHard {root sp} (h : RInv root sp) (k : Nat) (hok : ResetOK sp k) :
     RInv root ⟨resetHard k sp.st, sp.g, sp.seen⟩ := by
